@@ -90,7 +90,7 @@ def numeric_real_tree(expr, model: dict[str, Any], angle_atoms: dict[str, float]
                          for i in range(expr.rows)])
     unfolded = expr.doit() if hasattr(expr, "doit") else expr
     syms = sorted(unfolded.free_symbols, key=lambda s: s.name)
-    arrs = sorted(unfolded.atoms(ArraySymbol), key=lambda s: s.name)
+    arrs = sorted(unfolded.atoms(ArraySymbol), key=lambda s: str(s.name))
     arr_names = {str(a.name) for a in arrs}
     syms = [s for s in syms if s.name not in arr_names]
     args, vals = [], []
